@@ -252,6 +252,7 @@ package db
 //@   ensures [C02,C18 get.model] err == nil ==> (sv != nil && has(db.kv.secrets, name) && sv.Version == db.kv.secrets[name].ActiveVersion &&
 //@        bytes(sv.Value) == db.kv.secrets[name].Versions[db.kv.secrets[name].ActiveVersion] && (fresh(sv.Value) || len(sv.Value) == 0))
 //@   ensures [C08 get.notfound] (allows(caller.Permissions, "get", name) && !has(db.kv.secrets, name)) ==> (sv == nil && err != nil && (errIs(err, ErrNotFound) || sinkErr(unwrap1(err))))
+//@   ensures [C09 get.never-notmodified] !errIs(err, api.ErrValueNotChanged)
 //@   at call get: assert [C14 get.locked] db.mu
 
 //@ func (*DB).GetVersion(db, caller, name, version) (sv, err)
@@ -265,6 +266,7 @@ package db
 //@   ensures [C02,C18 getversion.model] err == nil ==> (sv != nil && hasVersion(db.kv, name, version) && sv.Version == version &&
 //@        bytes(sv.Value) == db.kv.secrets[name].Versions[version] && (fresh(sv.Value) || len(sv.Value) == 0))
 //@   ensures [C08 getversion.notfound] (allows(caller.Permissions, "get", name) && !hasVersion(db.kv, name, version)) ==> (sv == nil && err != nil && (errIs(err, ErrNotFound) || sinkErr(unwrap1(err))))
+//@   ensures [C09 getversion.never-notmodified] !errIs(err, api.ErrValueNotChanged)
 //@   at call getVersion: assert [C14 getversion.locked] db.mu
 
 //@ func (*DB).GetConditional(db, caller, name, oldVersion) (sv, err)
